@@ -65,6 +65,7 @@ def keyJ (k : Key) : Json := ofNats [k.1, k.2.1, k.2.2]
 
 def pollRemotes : RMode → List Nat
   | .poll all _ => all
+  | .pollOnce rem => rem
   | _ => []
 
 def opKeys (tid : Nat) : Op → List Key
